@@ -517,4 +517,108 @@ theorem Inv.iadd {s : St} {h : Term} {ps : List Cell} (inv : Inv s h ps) (xs : L
       exact e3 ▸ o'.fresh.subj_lt t' ht'
     · exact o'.fresh.subj_lt t hm
 
+/-! ### `clear` -/
+
+theorem clearAux_none (f : Nat) (g : Graph) : clearAux f g none = .ok g := by
+  cases f <;> rfl
+
+theorem clearAux_cells :
+    ∀ (todo : List Cell) (f : Nat) (g : Graph), Cells g (some NIL) todo → (todo.map Prod.fst).Nodup →
+      (∀ s p o, (s, p, o) ∈ g → p = FIRST ∨ p = REST → s ∈ todo.map Prod.fst) → todo.length + 1 < f →
+      ∃ g', clearAux f g (some (hdN todo)) = .ok g' ∧
+        (∀ t, t ∈ g' ↔ t ∈ g ∧ t.2.1 ≠ FIRST ∧ t.2.1 ≠ REST) ∧ (g.Nodup → g'.Nodup) := by
+  intro todo
+  induction todo with
+  | nil =>
+    intro f g _ _ hno hf
+    cases f with
+    | zero => omega
+    | succ f =>
+      have hv : value g NIL REST = none := value_absent (fun o hm => by simpa using hno _ _ _ hm (Or.inr rfl))
+      refine ⟨removeSP (removeSP g NIL FIRST) NIL REST, ?_, ?_, fun hnd => nodup_removeSP (nodup_removeSP hnd)⟩
+      · simp [clearAux, hdN, hv, clearAux_none]
+      · intro t
+        obtain ⟨s', p', o'⟩ := t
+        simp only [mem_removeSP]
+        constructor
+        · rintro ⟨⟨hm, _⟩, _⟩
+          refine ⟨hm, fun e => ?_, fun e => ?_⟩
+          · simpa using hno _ _ _ hm (Or.inl e)
+          · simpa using hno _ _ _ hm (Or.inr e)
+        · rintro ⟨hm, h1, h2⟩
+          exact ⟨⟨hm, fun e => h1 e.2⟩, fun e => h2 e.2⟩
+  | cons q todo ih =>
+    obtain ⟨c, x⟩ := q
+    intro f g hc hnd hno hf
+    cases f with
+    | zero => omega
+    | succ f =>
+      simp only [List.map_cons, List.nodup_cons] at hnd
+      have hg1 : ∀ t, t ∈ removeSP (removeSP g c FIRST) c REST ↔
+          t ∈ g ∧ ¬(t.1 = c ∧ (t.2.1 = FIRST ∨ t.2.1 = REST)) := by
+        intro t
+        simp only [mem_removeSP]
+        constructor
+        · rintro ⟨⟨hm, h1⟩, h2⟩
+          exact ⟨hm, fun ⟨e1, e2⟩ => e2.elim (fun e2 => h1 ⟨e1, e2⟩) (fun e2 => h2 ⟨e1, e2⟩)⟩
+        · rintro ⟨hm, h1⟩
+          exact ⟨⟨hm, fun ⟨e1, e2⟩ => h1 ⟨e1, Or.inl e2⟩⟩, fun ⟨e1, e2⟩ => h1 ⟨e1, Or.inr e2⟩⟩
+      obtain ⟨g', h1, h2, h3⟩ := ih f (removeSP (removeSP g c FIRST) c REST)
+        (cells_frame hc.2.2.2 (by
+          intro c' p o hc' _
+          have : c' ≠ c := fun e => hnd.1 (e ▸ hc')
+          rw [hg1]
+          simp [this]))
+        hnd.2
+        (by
+          intro s p o hm hp
+          rw [hg1] at hm
+          have := hno s p o hm.1 hp
+          simp only [List.map_cons, List.mem_cons] at this
+          rcases this with e | hm'
+          · exact absurd ⟨e, hp⟩ hm.2
+          · exact hm')
+        (by simp only [List.length_cons] at hf; omega)
+      refine ⟨g', ?_, ?_, fun hn => h3 (nodup_removeSP (nodup_removeSP hn))⟩
+      · show clearAux (f + 1) g (some c) = _
+        simp only [clearAux, cells_value_rest hc]
+        exact h1
+      · intro t
+        rw [h2, hg1]
+        constructor
+        · rintro ⟨⟨hm, _⟩, h5⟩
+          exact ⟨hm, h5⟩
+        · rintro ⟨hm, h5⟩
+          exact ⟨⟨hm, fun ⟨_, e⟩ => e.elim h5.1 h5.2⟩, h5⟩
+
+theorem Inv.clear {s : St} {h : Term} {ps : List Cell} (inv : Inv s h ps) :
+    ∃ g', clear s.g h = .ok g' ∧ Inv ⟨g', s.fresh⟩ h [] ∧
+      (∀ t, t ∈ g' ↔ t ∈ s.g ∧ t.2.1 ≠ FIRST ∧ t.2.1 ≠ REST) := by
+  have key : ∃ g', RV.C19.clear s.g h = .ok g' ∧
+      (∀ t, t ∈ g' ↔ t ∈ s.g ∧ t.2.1 ≠ FIRST ∧ t.2.1 ≠ REST) ∧ g'.Nodup := by
+    by_cases hps : ps = []
+    · subst hps
+      have hv : value s.g h REST = none := value_absent (fun _ => inv.chain.empty_no_triple (Or.inr rfl))
+      refine ⟨removeSP (removeSP s.g h FIRST) h REST, ?_, ?_, nodup_removeSP (nodup_removeSP inv.nodup)⟩
+      · simp [RV.C19.clear, clearAux, hv, clearAux_none]
+      · intro t
+        obtain ⟨s', p', o'⟩ := t
+        simp only [mem_removeSP]
+        constructor
+        · rintro ⟨⟨hm, _⟩, _⟩
+          exact ⟨hm, fun e => inv.chain.empty_no_triple (Or.inl e) hm,
+            fun e => inv.chain.empty_no_triple (Or.inr e) hm⟩
+        · rintro ⟨hm, h1, h2⟩
+          exact ⟨⟨hm, fun e => h1 e.2⟩, fun e => h2 e.2⟩
+    · obtain ⟨g', h1, h2, h3⟩ := clearAux_cells ps (s.g.length + 2) s.g inv.chain.cells inv.chain.nodup
+        inv.chain.noOrphan (by have := inv.chain.length_le; omega)
+      rw [inv.chain.hdN_eq hps] at h1
+      exact ⟨g', h1, h2, h3 inv.nodup⟩
+  obtain ⟨g', h1, h2, h3⟩ := key
+  refine ⟨g', h1, ⟨⟨fun hne => absurd rfl hne, inv.chain.hne, by simp, trivial, ?_⟩, h3, ?_⟩, h2⟩
+  · intro s' p o hm hp
+    have := (h2 _).1 hm
+    exact absurd hp (by simpa using this.2)
+  · exact freshOK_of_subset inv.fresh (fun t ht => Or.inl ((h2 t).1 ht).1)
+
 end RV.C19
